@@ -26,10 +26,11 @@ const (
 	rvReadOne
 	rvReadAll
 	rvBigBurst
+	rvDeadlineClose
 	nC11Events
 )
 
-var c11Names = []string{"data-next", "data-gap", "data-fragB", "data-dup", "data-far", "data-tsn5", "udata-frag", "fwd+2", "reset-req", "read-one", "read-all", "burst"}
+var c11Names = []string{"data-next", "data-gap", "data-fragB", "data-dup", "data-far", "data-tsn5", "udata-frag", "fwd+2", "reset-req", "read-one", "read-all", "burst", "deadline-close"}
 
 // heldTotal: user bytes held for reassembly or unread delivery, in the registered streams and
 // in the stream objects the application still holds after a reset unregistered them (extra).
@@ -186,6 +187,14 @@ func c11Scenario(cfg c11Cfg, seq []int) *Scenario {
 						}
 					}
 					p.settle(0)
+				case rvDeadlineClose:
+					// the application's read deadline has expired and it closes the stream: the
+					// stream object goes straight to "closed" but stays registered until the peer
+					// resets its direction, and keeps receiving
+					_ = s1.SetReadDeadline(time.Now().Add(-time.Second))
+					p.settle(0)
+					_ = s1.Close()
+					p.settle(0)
 				case rvBigBurst:
 					// a sender that ignores the window: ten in-order messages back to back
 					for k := 0; k < 10 && a.getState() == established; k++ {
@@ -203,6 +212,17 @@ func c11Scenario(cfg c11Cfg, seq []int) *Scenario {
 					}
 				}
 				where := fmt.Sprintf("step %d (%s) of %v", step, c11Names[ev], c11SeqNames(seq))
+				if ev == rvFwd {
+					// fragments of unordered messages at or below the new cumulative point were
+					// skipped by the sender: they can never complete and must be gone
+					for _, st := range a.streams {
+						for _, c := range st.reassemblyQueue.unorderedChunks {
+							if sna32LTE(c.tsn, peerLast+2) {
+								m.Failf("rwnd.purge", "%s: unordered fragment with TSN %d is still held after a FORWARD-TSN to %d (its message can never complete; %d bytes stay counted)", where, c.tsn, peerLast+2, len(c.userData))
+							}
+						}
+					}
+				}
 				held, bad := heldTotal(a, s1)
 				if bad != "" {
 					m.Failf("rwnd.window", "%s: %s", where, bad)
